@@ -103,7 +103,6 @@ func init() {
 		"internal/race.Enable":     extNop,
 
 		// ---- time ----
-		"time.Now":   extTimeNow,
 		"time.Sleep": func(fr *frame, a []value) value { fr.i.yield(); return nil },
 		"time.now":   func(fr *frame, a []value) value { return tuple{int64(1_700_000_000), int32(0), int64(1_000_000)} },
 		"time.runtimeNano": func(fr *frame, a []value) value { return int64(1_000_000) },
